@@ -503,9 +503,20 @@ impl Scaler for FreeTypeScaler<'_> {
         self.phantom[1].x = self.phantom[0].x + F26Dot6::from_bits(advance);
         self.phantom[1].y = F26Dot6::ZERO;
         // vertical:
-        self.phantom[2].x = F26Dot6::ZERO;
+        // When the interpreter runs with ClearType hinting and grayscale
+        // rendering, FreeType places these at half the advance width.
+        let vertical_x = if self.is_hinted
+            && self
+                .hinter
+                .is_some_and(|hinter| hinter.target().is_grayscale_cleartype())
+        {
+            F26Dot6::from_bits(advance / 2)
+        } else {
+            F26Dot6::ZERO
+        };
+        self.phantom[2].x = vertical_x;
         self.phantom[2].y = F26Dot6::from_bits(bounds[3] as i32 + tsb);
-        self.phantom[3].x = F26Dot6::ZERO;
+        self.phantom[3].x = vertical_x;
         self.phantom[3].y = self.phantom[2].y - F26Dot6::from_bits(vadvance);
     }
 
